@@ -108,6 +108,20 @@ theorem ghostBatchGrad_apply (v : Variant) (s : LossShape) (hvs : ¬ (v = .asCod
   simp only [he, zip_map_map, wsum_apply, List.map_map]
   rfl
 
+
+/-- exact per-parameter norm samples ⇒ the ghost gradient of a physical batch is the flat clipped
+sum -/
+theorem ghostBatchGrad_eq_batchSum (v : Variant) (s : LossShape) (hvs : ¬ (v = .asCoded ∧ s = .col))
+    (C : ℝ) (batch : List ((Fin P → ℝ) × Grad ℝ d)) (hex : ∀ x ∈ batch, x.1 = paramNorms x.2) :
+    ghostBatchGrad v s C batch = batchSum (.flat C) (batch.map (·.2)) := by
+  funext k i
+  rw [ghostBatchGrad_apply v s hvs, batchSum_apply, List.map_map]
+  congr 1
+  apply List.map_congr_left
+  intro x hx
+  simp only [Function.comp, clippingCoef, normSample, hex x hx]
+  rfl
+
 end real
 
 end Opacus.Ghost
